@@ -54,7 +54,7 @@ def sh(cmd, timeout=None, mem_gb=None, env=None, cwd=None):
         return -9, out, "TIMEOUT after %ss" % timeout, time.time() - t0
 
 
-def sh_race(cmds, timeout=None, mem_gb=None):
+def sh_race(cmds, timeout=None, mem_gb=None, tmpdir=None):
     """Run several equivalent commands (different SAT back ends) concurrently; the first
     one that terminates by itself wins, the others are killed."""
     import signal
@@ -70,7 +70,13 @@ def sh_race(cmds, timeout=None, mem_gb=None):
     for label, cmd in cmds:
         out = tempfile.TemporaryFile()
         err = tempfile.TemporaryFile()
-        procs.append((label, subprocess.Popen(cmd, stdout=out, stderr=err, preexec_fn=limits), out, err))
+        env = dict(os.environ)
+        if tmpdir:
+            # external SAT solvers get their CNF through a temp file; a solver that loses the race is
+            # killed and would leave it behind in /tmp, so it is written into the job's own directory
+            os.makedirs(tmpdir, exist_ok=True)
+            env["TMPDIR"] = tmpdir
+        procs.append((label, subprocess.Popen(cmd, stdout=out, stderr=err, preexec_fn=limits, env=env), out, err))
     winner = None
     try:
         while winner is None:
@@ -563,7 +569,8 @@ def run_job(prop, job, run_dir, want_functions=True):
         info["bounds"]["loops"] = loop_table
         cmd = cbmc_cmd(job, goto)
         label, rc, so, se, wall = sh_race([(sv, cmd + SOLVER_FLAGS[sv]) for sv in job.solvers],
-                                          timeout=job.timeout, mem_gb=job.mem_gb)
+                                          timeout=job.timeout, mem_gb=job.mem_gb,
+                                          tmpdir=os.path.join(workdir, "tmp"))
         info["solver_backend"] = label
         info["cbmc_cmd"] = " ".join(cmd[:1] + ["<goto>"] + cmd[2:] + SOLVER_FLAGS.get(label, []))
         info["cbmc_wall_s"] = round(wall, 2)
